@@ -143,6 +143,9 @@ func (p *Path) runnable(t *Thread) bool {
 // schedule picks the next thread to run. If mustSwitch, self cannot continue
 // (blocked or finished).
 func (p *Path) schedule(self *Thread, mustSwitch bool) {
+	if p.spec > 0 {
+		panic(specAbort{"scheduling point"})
+	}
 	var cands []*Thread
 	if !mustSwitch {
 		cands = append(cands, self)
